@@ -12,7 +12,7 @@ namespace h13 {
 using namespace vf; using namespace ref;
 enum Outcome { O_VALID, O_HTTP_503_TEXT, O_HTTP_200_TEXT, O_CUT_PDU, O_STATUS, O_ERROR_PDU, O_BAD_MAC, O_CURL_ERROR, O_COUNT };
 static const char *kOut[] = {"valid", "http-503-text", "http-200-text", "cut-pdu", "error-status", "error-pdu", "bad-mac", "curl-error"};
-struct HReq { int idx; Bytes hash; KSI_AsyncHandle *h = nullptr; bool accepted = false, returned = false; int transfer = -1; uint64_t id = 0; int outcome = -1; bool planned = false; bool sharedCause = false; /* malformed or unauthenticated data or an error PDU (none of them tied to a request id) was delivered while this request was outstanding */ };
+struct HReq { int idx; Bytes hash; KSI_AsyncHandle *h = nullptr; bool accepted = false, returned = false; int transfer = -1; uint64_t id = 0; int outcome = -1; bool planned = false; int extraPdu = 0; /* valid outcome only: 1 = a pushed-configuration PDU precedes the reply in the same response body, 2 = follows it */ bool sharedCause = false; /* malformed or unauthenticated data or an error PDU (none of them tied to a request id) was delivered while this request was outstanding */ };
 static Bytes hashOf(int i) { Bytes h(33, 0); h[0] = 1; for (size_t k = 1; k < 33; k++) h[k] = (uint8_t)(i * 29 + k + 7); return h; }
 static Bytes validReply(const Bytes &hash, uint64_t rid, int idx, const Bytes &keyB) {
     Chooser ch{[&](uint32_t) { return 0u; }, [&]() { return (uint8_t)(idx * 13 + 5); }}; BuildOpts o; o.fixedDoc = true; o.doc = hash; o.wantRfc = 0; o.wantCal = 1; o.wantPub = 0; o.wantAuth = 1; o.minChains = 1; o.maxChains = 1; o.fixedTime = true; o.t = 1500000000 + (uint64_t)idx; o.fixedPubTime = true; o.p = o.t + 10; o.calSalt = 4;
@@ -29,7 +29,8 @@ static void httpSchedule(Dec &d, Case &c) {
         for (auto &r : reqs) if (r.hash == ri.hash && r.accepted && r.transfer < 0) { r.transfer = rq.id; r.id = ri.reqId; reqOfTransfer[rq.id] = r.idx; break; } return rp; };
     sim::http().onPoll = [&](const sim::HttpRequest &rq, sim::HttpReply &rp) -> bool { auto it = reqOfTransfer.find(rq.id); if (it == reqOfTransfer.end()) return false; HReq &r = reqs[(size_t)it->second]; if (!r.planned) return false; Header h; h.login = "srv";
         switch (r.outcome) {
-        case O_VALID: rp.body = validReply(r.hash, r.id, r.idx, keyB); break;
+        case O_VALID: rp.body = validReply(r.hash, r.id, r.idx, keyB);
+            if (r.extraPdu) { Bytes cf = sealV2(0x221, h, {aggrConfPayload(true, 10, true, 1, true, 400, true, 100, {})}, keyB, 1); if (r.extraPdu == 1) { cf.insert(cf.end(), rp.body.begin(), rp.body.end()); rp.body = cf; } else rp.body.insert(rp.body.end(), cf.begin(), cf.end()); } break;
         case O_HTTP_503_TEXT: rp.httpCode = 503; { std::string t = "<html>Service Unavailable</html>"; rp.body.assign(t.begin(), t.end()); } break;
         case O_HTTP_200_TEXT: { std::string t = "hello, this is not KSI"; rp.body.assign(t.begin(), t.end()); } break;
         case O_CUT_PDU: rp.body = validReply(r.hash, r.id, r.idx, keyB); rp.body.resize(rp.body.size() / 2); break;
@@ -65,7 +66,7 @@ static void httpSchedule(Dec &d, Case &c) {
             else { r.accepted = true; outstanding++; byHandle[r.h] = r.idx; if (faultSeen) reuseAfterFault++; }
             reqs.push_back(r); }
         else if (k < 6) run();
-        else { std::vector<int> open; for (auto &r : reqs) if (r.accepted && !r.returned && r.transfer >= 0 && !r.planned) open.push_back(r.idx); if (open.empty()) { run(); continue; } HReq &r = reqs[(size_t)open[d.pick((uint32_t)open.size())]]; r.outcome = d.pick(3) == 0 ? (int)(1 + d.pick(O_COUNT - 1)) : O_VALID; r.planned = true; trace += std::string("complete") + num(r.idx) + ":" + kOut[r.outcome] + " "; if (r.outcome == O_VALID) valids++; else { faults++; faultSeen = true; } if (r.outcome == O_ERROR_PDU || r.outcome == O_BAD_MAC || r.outcome == O_CUT_PDU || r.outcome == O_HTTP_200_TEXT) sharedRuns = 2; /* takes effect when the client processes it: in one of the next runs */ }
+        else { std::vector<int> open; for (auto &r : reqs) if (r.accepted && !r.returned && r.transfer >= 0 && !r.planned) open.push_back(r.idx); if (open.empty()) { run(); continue; } HReq &r = reqs[(size_t)open[d.pick((uint32_t)open.size())]]; r.outcome = d.pick(3) == 0 ? (int)(1 + d.pick(O_COUNT - 1)) : O_VALID; r.planned = true; if (r.outcome == O_VALID && d.pick(3) == 0) { r.extraPdu = 1 + (int)d.pick(2); c.cls("http:response-body-with-several-pdus"); } trace += std::string("complete") + num(r.idx) + ":" + kOut[r.outcome] + (r.extraPdu ? (r.extraPdu == 1 ? "(after-config-pdu)" : "(before-config-pdu)") : "") + " "; if (r.outcome == O_VALID) valids++; else { faults++; faultSeen = true; } if (r.outcome == O_ERROR_PDU || r.outcome == O_BAD_MAC || r.outcome == O_CUT_PDU || r.outcome == O_HTTP_200_TEXT) sharedRuns = 2; /* takes effect when the client processes it: in one of the next runs */ }
     }
     // drain: every transfer completes (validly), the service is run until everything has been handed back
     for (auto &r : reqs) if (r.accepted && !r.returned && !r.planned) { r.outcome = O_VALID; r.planned = true; valids++; }
